@@ -106,9 +106,9 @@ var opTable = func() map[byte]opInfo {
 
 var validItemTypes = map[byte]bool{0x00: true, 0x10: true, 0x20: true, 0x21: true, 0x28: true, 0x30: true, 0x40: true, 0x41: true, 0x48: true, 0x60: true}
 
-// undeterminedOps are opcode bytes on which the reference table and the
-// implementation's table of defined opcodes disagree (filled at start-up);
-// scripts using them are excluded instead of guessed.
+// undeterminedOps are opcode bytes the reference does not want to judge;
+// scripts using them are excluded instead of guessed. Empty: the reference
+// table covers all 256 byte values.
 var undeterminedOps = map[byte]bool{}
 
 // scriptWellFormed is the reference predicate.
